@@ -76,6 +76,7 @@ func main() {
 		stats["violations"] = harnessViolations
 	}
 	stats["ops"] = out.N
+	stats["dist"] = dist
 	stats["kinds"] = out.Kinds
 	stats["results"] = out.Results
 	bs, _ := json.Marshal(stats)
